@@ -1214,21 +1214,26 @@ func (s *levelsController) fillTablesL0ToL0(cd *compactDef) bool {
 	top := cd.thisLevel.tables
 	var out []*table.Table
 	now := time.Now()
+	var nBig, nYoung, nBusy uint64 // reported to the simulator only
 	for _, t := range top {
 		if t.Size() >= 2*cd.t.fileSz[0] {
 			// This file is already big, don't include it.
+			nBig++
 			continue
 		}
 		if now.Sub(t.CreatedAt) < 10*time.Second {
 			// Just created it 10s ago. Don't pick for compaction.
+			nYoung++
 			continue
 		}
 		if _, beingCompacted := s.cstatus.tables[t.ID()]; beingCompacted {
+			nBusy++
 			continue
 		}
 		out = append(out, t)
 	}
 
+	vhook.Event("compact.l0l0", uint64(len(out)), uint64(len(top))|nYoung<<16|nBusy<<32|nBig<<48)
 	if len(out) < 4 {
 		// If we don't have enough tables to merge in L0, don't do it.
 		return false
